@@ -198,6 +198,11 @@ func runC09Protocol(c *Ctx) {
 		}
 	}
 	c.run("saslreconnect", map[string]string{"scenario": "link drops after the first of three chunks; reconnect"})
+	for _, oc := range []string{"ok", "fail"} {
+		for _, nt := range []string{"0", "1"} {
+			c.run("sasllate", map[string]string{"outcome": oc, "notrack": nt})
+		}
+	}
 	for i := 0; i < 120*c.Scale; i++ {
 		in := map[string]string{"nick": "me", "check": "c09", "nosts": "1"}
 		// choose the password length so that the base64 response lands on / next to a multiple of 400
@@ -283,7 +288,7 @@ func runC09Protocol(c *Ctx) {
 
 func runC14Replies(c *Ctx) {
 	r := c.R
-	reqs := []string{"VERSION", "PING 12345", "PING", "PONG", "SOURCE", "TIME", "FINGER", "ACTION waves", "FOO", "FOO bar", "version", "Version", "VERSION extra text", "", " x", "CLIENTINFO", "ERRMSG x", "PING \x01"}
+	reqs := []string{"VERSION", "PING 12345", "PING", "PONG", "SOURCE", "TIME", "FINGER", "ACTION waves", "FOO", "FOO bar", "version", "Version", "VERSION extra text", "", " x", "CLIENTINFO", "ERRMSG x", "PING \x01", "\u00c9CHO hi", "ΡΙΝG 1", "ＶＥＲＳＩＯＮ", "P٣"}
 	for i := 0; i < 150*c.Scale; i++ {
 		in := map[string]string{"nick": "me", "check": "c14", "version": c.Rng.Pick([]string{"", "mybot 1.0"})}
 		if c.Rng.Chance(35) {
